@@ -37,6 +37,26 @@ MISSED_FIRST = {   # round 2: not caught by the check as it stood; what was stre
     'C15_h': 'property values never began with blanks: leading / trailing blanks and U+3000 added',
     'C16_g': 'every scenario built its database through the API: parsing with configured renderer classes through Path / open-file sources added',
     'C17_g': 'reference sides always had equal length: sides of different length with the detached column beyond the shorter side added',
+    # round 5
+    'C02_i': 'no clause looked at copies: deep copy / pickle round trip of the parsed database (original dropped and collected) now go through the same round trip',
+    'C02_j': 'round trip ran on freshly parsed databases only: renames through the public attributes (fresh bare names) before the round trip added',
+    'C03_i': 'API scripts contained no refused operations: delete_column / add_index on the wrong table, an element added twice, an absent element deleted are now interleaved (the DDL must not notice)',
+    'C03_j': 'the DDL oracle never saw a copy: it is now also applied to deepcopy / pickle copies of the database',
+    'C04_j': 'the DDL oracle computed its expectation from the objects, so a parser pairing the wrong columns agreed with itself: document-level clause added (expectation from a database built through the API from the abstract description)',
+    'C06_j': 'generated block-form references had no remark inside the braces above the relation: added (it is dropped, a duplicate stays a duplicate)',
+    'C07_j': 'fault list had no comma that separates nothing: trailing / leading / doubled commas in all six kinds of settings list added',
+    'C08_i': 'generated composite references always had sides of equal length: unequal sides added to docgen',
+    'C08_j': 'first run: caught by the correspondence only (no-failing-input-found): corpus of short names (also the empty one) used as index subject, reference endpoint and enum type added; now by the oracle with a concrete document',
+    'C09_i': 'universe had no instances of user subclasses, and the oracle only checked that refusals leave the state alone: every sixth history is replayed with trivial subclasses of all classes, and a refused operation that the property does not list as rejected is a failure',
+    'C10_i': 'added columns / retyped columns never had a type string spelling the name of an enum of the database; the fresh-build oracle cloned the objects as they were: such strings added, and every scalar attribute must hold what was passed or assigned last',
+    'C11_i': 'no parse was ever started in the middle of another one on the same thread: nested parse from a parse action of a PyDBMLParser subclass added',
+    'C11_j': 'all interpreters ran with one hash seed and no document repeated a label: three (thorough: seven) hash seeds and documents repeating enum labels, settings and keys added',
+    'C12_i': 'open files were always fresh seekable handles at offset 0: a pipe and a handle the caller has read a header from added',
+    'C13_i': 'the SQL clause was stated on the helper only: the whole DDL must carry the note as ONE single-quoted literal, also for deepcopy / pickle copies',
+    'C16_j': 'the current project was never added again: added (it stays attached); refused operations interleaved',
+    'C17_i': 'no scenario rendered an index after its add_index had been refused: added',
+    'C17_j': 'a reference side was never the very list object `table.columns`: the interpreter now passes that list when a side lists exactly the columns of a table, and a scenario deletes one of them afterwards',
+    'C18_j': 'first run: caught by the correspondence only (no-failing-input-found): the order clause is now also read off the emitted text (which CREATE TABLE carries a FOREIGN KEY clause, where its target is created) and compared edge by edge with the pinned model',
 }
 
 def cell(t, n):
